@@ -80,8 +80,10 @@ fn reverse_of(pos: &Pos, legal: &[Mv], m: &Mv) -> Option<Mv> {
     legal.iter().find(|x| x.from == m.to && x.to == m.from && reversible(pos, x)).copied()
 }
 
+/// `b` is where the segment started: a pending en-passant target there has expired by the time
+/// the placement comes back (a look-alike, not a repetition - just what stale caches confuse).
 fn same_position(a: &Pos, b: &Pos) -> bool {
-    a.sq == b.sq && a.side == b.side && a.rights == b.rights && a.ep == b.ep
+    a.sq == b.sq && a.side == b.side && a.rights == b.rights && (a.ep == b.ep || (a.ep.is_none() && b.ep.is_some()))
 }
 
 /// A reversible move, a reversible reply and both moves back, ending in the starting position.
@@ -131,9 +133,6 @@ pub fn find_cycle(p: &Pos, sel: u16) -> Option<[Mv; 4]> {
 /// Five plies after which the same placement / rights stand with the other side to move: one
 /// piece of the mover goes A -> B -> C -> A while the opponent goes out and back.
 pub fn find_tempo_flip(p: &Pos, sel: u16) -> Option<[Mv; 5]> {
-    if p.ep.is_some() {
-        return None;
-    }
     let mut la: Vec<Mv> = p.legal_moves().into_iter().filter(|m| reversible(p, m)).collect();
     if la.is_empty() {
         return None;
